@@ -86,6 +86,7 @@ type absMethod struct {
 type absRoot struct {
 	v       *types.Var
 	methods []*absMethod // sorted by path
+	poke    bool         // windows into its memory are stored into: the poke operation is a parameter (ext3b.go)
 }
 
 func (r *absRoot) stName() string { return "St_" + r.v.Name() }
@@ -147,6 +148,9 @@ func (c *fctx) absBinders(f *fnInfo) []string {
 		for _, m := range r.methods {
 			bs = append(bs, fmt.Sprintf("(%s : %s)", r.mName(m.path), c.methodType(r, m)))
 		}
+		if r.poke {
+			bs = append(bs, fmt.Sprintf("(%s : %s -> Z -> bytes -> res %s)", r.pokeName(), r.stName(), r.stName()))
+		}
 	}
 	return bs
 }
@@ -157,6 +161,9 @@ func (c *fctx) absArgs(f *fnInfo) []string {
 		as = append(as, r.stName())
 		for _, m := range r.methods {
 			as = append(as, r.mName(m.path))
+		}
+		if r.poke {
+			as = append(as, r.pokeName())
 		}
 	}
 	return as
@@ -174,6 +181,10 @@ func (c *fctx) methodType(r *absRoot, m *absMethod) string {
 	}
 	rts := []string{r.stName()}
 	for i := 0; i < sig.Results().Len(); i++ {
+		if i == 0 && isRegionMethod(m.fn) {
+			rts = append(rts, "gregion")
+			continue
+		}
 		rts = append(rts, c.coqType(c.f.decl, sig.Results().At(i).Type()))
 	}
 	return strings.Join(parts, " -> ") + " -> res (" + strings.Join(rts, " * ") + ")"
@@ -236,6 +247,9 @@ func (c *fctx) varCoqType(n ast.Node, v *cvar) string {
 	if r := c.f.absOf(v.root); r != nil {
 		return r.stName()
 	}
+	if rv, ok := v.root.(*types.Var); ok && c.f.regionOf[rv] != nil {
+		return "gregion"
+	}
 	if e, ok := ptrElem(v.root.Type()); ok {
 		return c.coqType(n, e)
 	}
@@ -294,6 +308,9 @@ func (c *fctx) resultNames(r *types.Var) []string {
 }
 
 func (c *fctx) resultTypes(n ast.Node, r *types.Var) []string {
+	if c.f.regionOf[r] != nil {
+		return []string{"gregion"}
+	}
 	if fs, ok := structFields(r.Type()); ok {
 		var ts []string
 		for _, fv := range fs {
@@ -658,6 +675,9 @@ func (c *fctx) callTranslated(x *ast.CallExpr, callee *fnInfo) (pre []string, te
 					n := 1 + m.fn.Type().(*types.Signature).Params().Len()
 					head = append(head, "(fun "+strings.TrimSpace(strings.Repeat("_ ", n))+" => Panic 5)")
 				}
+				if calleeRoot.poke {
+					head = append(head, "(fun _ _ _ => Panic 5)")
+				}
 				pats = append(pats, "_")
 				return []string{"true", "tt"}
 			}
@@ -686,6 +706,12 @@ func (c *fctx) callTranslated(x *ast.CallExpr, callee *fnInfo) (pre []string, te
 				c.failf(e, "internal: method %s of %s not recorded", full, root.v.Name())
 			}
 			head = append(head, root.mName(full))
+		}
+		if calleeRoot.poke {
+			if !root.poke || path != "" {
+				c.failf(e, "internal: the poke operation of %s is not a parameter", root.v.Name())
+			}
+			head = append(head, root.pokeName())
 		}
 		c.noteMut(x)
 		st := c.nameOf(root.v)
@@ -891,10 +917,23 @@ func (c *fctx) carriedOfNodes(fr *loopFrame, nodes []ast.Node) []string {
 		case *ast.AssignStmt:
 			for _, l := range x.Lhs {
 				add(l)
+				if ix, ok := ast.Unparen(l).(*ast.IndexExpr); ok && c.isRegionExpr(ix.X) {
+					_, _, r := c.regionExprQuiet(ix.X)
+					if r != nil {
+						set[c.nameOf(r.v)] = true
+					}
+				}
 			}
 		case *ast.IncDecStmt:
 			add(x.X)
 		case *ast.CallExpr:
+			if len(x.Args) == 2 && c.isRegionExpr(x.Args[0]) {
+				if fn := c.calleeFunc(x); fn != nil && putLib[fn.FullName()] != 0 {
+					if _, _, r := c.regionExprQuiet(x.Args[0]); r != nil {
+						set[c.nameOf(r.v)] = true
+					}
+				}
+			}
 			var id *ast.Ident
 			switch fe := ast.Unparen(x.Fun).(type) {
 			case *ast.Ident:
@@ -1193,6 +1232,7 @@ func (t *tr) analyseExt(f *fnInfo, seen map[*fnInfo]bool) {
 	sig := f.obj.Type().(*types.Signature)
 	f.owned, f.addrOf = map[*types.Var]bool{}, map[*types.Var]bool{}
 	f.nilable = map[*types.Var]bool{}
+	defer t.analyseRegions(f)
 	f.nErrCtor, f.errCtorIx = map[string]int{}, map[ast.Node]int{}
 	if recv := sig.Recv(); recv != nil {
 		rt := recv.Type()
@@ -1348,6 +1388,9 @@ func (t *tr) analyseExt(f *fnInfo, seen map[*fnInfo]bool) {
 }
 
 func translatableParam(t types.Type) bool {
+	if structParamOK(t) {
+		return true
+	}
 	if isErrorIface(t) || isBool(t) || isBytesLike(t) || isFloat64(t) || isAbstractType(t) {
 		return true
 	}
@@ -1376,6 +1419,9 @@ func (t *tr) mapAbstract(f, callee *fnInfo, x *ast.CallExpr) {
 		}
 		for _, m := range r.methods {
 			root.addMethod(joinPath(path, m.path), m.fn)
+		}
+		if r.poke && path == "" {
+			root.poke = true
 		}
 	}
 	if callee.recv != nil {
